@@ -54,12 +54,12 @@ func chainFor(key string) []*pki.Cert {
 
 // c02ChainShapes: the certificate chain an envelope carries (or a signer returns) comes in more shapes than leaf + root; the binding
 // between the declared algorithm and the leaf key does not depend on what stands above the leaf.
-var c02ChainShapes = []string{"leaf+root", "one-self-signed-certificate", "leaf+intermediate+root"}
+var c02ChainShapes = []string{"leaf+root", "one-self-signed-certificate", "leaf+intermediate+root", "root-first(signed by the first certificate's key; the declared algorithm is tried against every key)"}
 
 var c02Shaped sync.Map
 
 func chainForShape(key string, shape int) []*pki.Cert {
-	if shape == 0 {
+	if shape == 0 || shape == 3 {
 		return chainFor(key)
 	}
 	envFix.init()
@@ -125,8 +125,17 @@ func c02VerifyBody(c *mc.Ctx, media string, scheme string) {
 	key := pki.K(keyName)
 	shape := c.ChooseFree("chain-shape", len(c02ChainShapes))
 	chain := chainForShape(keyName, shape)
+	rootFirst := shape == 3
+	if rootFirst {
+		// the list starts with the root: the signing key is the key of the first certificate (the root's), the last certificate is the
+		// leaf of keyName. The envelope's chain is not a chain (it does not start at the signer's leaf): never accepted, whichever
+		// certificate's key the declared algorithm happens to suit.
+		lr := chainFor(keyName)
+		chain = []*pki.Cert{lr[1], lr[0]}
+		key = lr[1].Key
+	}
 	cont := baseContent(scheme)
-	table := envenc.TableAlg(key.Kind)
+	table := envenc.TableAlg(pki.K(keyName).Kind)
 	absent := ai == len(envenc.Algs)
 	var decl envenc.Alg
 	declName := "(absent)"
@@ -171,11 +180,11 @@ func c02VerifyBody(c *mc.Ctx, media string, scheme string) {
 		parts, _, _, valid = envenc.COSESign(ms, cont.Payload, u, key, decl)
 		env = parts.Assemble()
 	}
-	wantAccept := !absent && table != "" && decl.Name == table && form == "single"
+	wantAccept := !absent && table != "" && decl.Name == table && form == "single" && !rootFirst
 	// a letter-case twin of `alg` is a second declaration; the statement only allows the one dictated by the key.
 	// With the exact member already on the diagonal and the twin carrying the same value the envelope still
 	// declares one algorithm; that cell is recorded, not judged.
-	recordedOnly := form != "single" && !absent && table != "" && decl.Name == table
+	recordedOnly := form != "single" && !absent && table != "" && decl.Name == table && !rootFirst
 	c.Statef("key=%s declared=%s form=%s accept=%v validSig=%v", key.Kind, declName, form, wantAccept, valid)
 	content, perr, verr, pan := parseVerify(media, env)
 	accepted := perr == nil && verr == nil && pan == nil
@@ -293,11 +302,18 @@ func c02RemoteBody(c *mc.Ctx, media string) {
 	st := c02SpecTypes[c.ChooseFree("spec-type", len(c02SpecTypes))]
 	sz := c02SpecSizes[c.ChooseFree("spec-size", len(c02SpecSizes))]
 	key := pki.K(keyName)
-	chain := chainForShape(keyName, c.ChooseFree("chain-shape", len(c02ChainShapes)))
+	shape := c.ChooseFree("chain-shape", len(c02ChainShapes))
+	chain := chainForShape(keyName, shape)
 	spec := signature.KeySpec{Type: st, Size: sz}
 	rs := envenc.NewRemoteSigner(key, pki.X509s(chain))
 	rs.Spec = spec
 	want := pki.Supported(key.Kind) && envenc.SpecOf(key) == spec
+	if shape == 3 {
+		// the signer hands its certificates over root first: what it returns is not a chain that starts at the signing certificate,
+		// whichever of the certificates the declared key spec happens to suit
+		rs.Chain = []*x509.Certificate{chain[1].X, chain[0].X}
+		want = false
+	}
 	// the envelope object is either new, or was already used for a successful signing with a leaf whose key *is* the declared spec
 	reuse := c.ChooseFree("envelope-object", 2) == 1
 	c.Statef("key=%s spec=%v/%d reusedObject=%v accept=%v", key.Kind, st, sz, reuse, want)
